@@ -75,8 +75,15 @@ QueryT(s) == TD("object", "", {}, <<FD("f", ArgDefs(s), RetType(s.ret)), FD("pin
 MutationT(s) == TD("object", "", {}, <<FD(MField(s), <<AD("x", <<"NN", "Int">>, FALSE)>>, <<"Obj">>),
                                         FD("pong", <<AD("x", <<"Int">>, FALSE)>>, <<"Int">>)>>, {RootM(s)}, {})
 SubT(s) == TD("object", "", {}, <<FD("tick", <<>>, <<"Int">>)>>, {RootS(s)}, {})
+(* member-field arguments: the implementation-only fields A.x and B.y (reached through `... on A { }` from the interface Node and *)
+(* the union U) take the optional argument `m` of type s.marg, B.y also a plain `k: Int`; marg.base = "" means no argument       *)
+MArgs(s) == IF s.marg.base = "" THEN <<>> ELSE <<AD("m", WrapT(s.marg.wrap, s.marg.base), FALSE)>>
+MemberA(s) == TD("object", "", {}, <<FD("id", <<>>, <<"NN", "ID">>), FD("x", MArgs(s), <<"Int">>), FD("v", <<>>, <<"Int">>)>>, {"A"}, {"Node"})
+MemberB(s) == TD("object", "", {}, <<FD("id", <<>>, <<"NN", "ID">>),
+                                     FD("y", MArgs(s) \o (IF s.marg.base = "" THEN <<>> ELSE <<AD("k", <<"Int">>, FALSE)>>), <<"String">>),
+                                     FD("v", <<>>, <<"String">>)>>, {"B"}, {"Node"})
 Types(s) ==
-    LET t1 == (RootQ(s) :> QueryT(s)) @@ FixedTypes
+    LET t1 == (RootQ(s) :> QueryT(s)) @@ ("A" :> MemberA(s)) @@ ("B" :> MemberB(s)) @@ FixedTypes
         t2 == IF s.mut = "none" THEN t1 ELSE (RootM(s) :> MutationT(s)) @@ t1
     IN IF s.sub THEN (RootS(s) :> SubT(s)) @@ t2 ELSE t2
 
@@ -359,7 +366,12 @@ Bases == <<"Int", "Float", "String", "Boolean", "ID", "Color", "Date", "Long", "
 Wraps == <<"T", "T!", "[T]", "[T!]!", "T!=d">>
 Rets == <<"scalar", "object", "interface", "union", "enum", "listobj">>
 Arg(n, b, w) == [name |-> n, base |-> b, wrap |-> w]
-Shape(args, ret, mut, names, sub) == [args |-> args, ret |-> ret, mut |-> mut, names |-> names, sub |-> sub]
+NoMArg == [base |-> "", wrap |-> ""]
+ShapeM(args, ret, mut, names, sub, marg) == [args |-> args, ret |-> ret, mut |-> mut, names |-> names, sub |-> sub, marg |-> marg]
+Shape(args, ret, mut, names, sub) == ShapeM(args, ret, mut, names, sub, NoMArg)
+MBases == IF Thorough THEN {Bases[i] : i \in 1..Len(Bases)} ELSE {"Int", "String", "Unreg", "Inner"}
+MArgSet == {[base |-> b, wrap |-> w] : b \in MBases, w \in {"T", "[T]"}}
+           \cup (IF Thorough THEN {[base |-> b, wrap |-> "T!"] : b \in MBases \ {"Unreg"}} ELSE {})
 RetFor(i, j) == Rets[((i + j) % 6) + 1]
 Second == IF Thorough THEN {Arg("b", "String", "T"), Arg("b", "Outer", "T!"), Arg("b", "Unreg", "T"), Arg("b", "Long", "[T!]!")}
           ELSE {Arg("b", "String", "T"), Arg("b", "Outer", "T!")}
@@ -374,6 +386,8 @@ Family ==
             m \in (IF Thorough THEN {"none", "same", "other"} ELSE {"none"})}
     (* a Query field and a Mutation field with the same / another name, standard and custom root type names, Subscription present *)
     \cup {Shape(a, "scalar", m, nm, nm = "custom") : a \in {<<>>, <<Arg("a", "Int", "T!")>>}, m \in {"same", "other"}, nm \in {"std", "custom"}}
+    (* interface / union return types whose member types have fields WITH arguments: documents with arguments inside inline fragments *)
+    \cup {ShapeM(<<>>, r, "none", "std", FALSE, ma) : r \in {"interface", "union"}, ma \in MArgSet}
     (* two arguments *)
     \cup {Shape(<<a, b>>, "object", "none", "std", FALSE) : a \in First, b \in Second}
 
